@@ -325,6 +325,26 @@ def generate(rng, tier):
     return {"ops": ops, "nthreads": nthreads, "policy": gen_policy(rng, est)}
 
 
+def simplify(trace):
+    ops = trace["ops"]
+    for i, op in enumerate(ops):
+        if op["op"] == "req":
+            for key, plain in (("params", None), ("data", None), ("headers", None), ("raw", False)):
+                if op.get(key) not in (None, False):
+                    yield dict(trace, ops=ops[:i] + [dict(op, **{key: plain})] + ops[i + 1:])
+            net = op.get("net") or {}
+            if net.get("lat"):
+                yield dict(trace, ops=ops[:i] + [dict(op, net=dict(net, lat=0))] + ops[i + 1:])
+            if not net.get("fault") and net.get("body") not in ("", None):
+                yield dict(trace, ops=ops[:i] + [dict(op, net=dict(net, body=""))] + ops[i + 1:])
+        elif op["op"] in ("mk", "clone") and isinstance(op.get("adapters"), dict) and "list" in op["adapters"]:
+            lst = op["adapters"]["list"]
+            for j in range(len(lst)):
+                yield dict(trace, ops=ops[:i] + [dict(op, adapters={"list": lst[:j] + lst[j + 1:]})] + ops[i + 1:])
+    if trace.get("nthreads", 1) > 1:
+        yield dict(trace, nthreads=1, schedule=[])
+
+
 # --------------------------------------------------------------------------
 # execution
 
